@@ -556,6 +556,15 @@ func (x *Exec) specApp(sd *SpecDecl, args []CExpr, env *Env) Val {
 			terms = append(terms, sel(x.heapGet(env.cur, key, srt), app("s_reg", v.S)), app("s_off", v.S), app("s_len", v.S))
 			continue
 		}
+		if _, isMap := under(pt).(*types.Map); isMap {
+			// ghost (total) map / set argument: pass the SMT array
+			if v.GM == nil {
+				x.fail("spec %s: argument %d must be a ghost map or domain(m)", sd.Name, i)
+			}
+			sorts = append(sorts, x.ghostSort(pt))
+			terms = append(terms, v.S)
+			continue
+		}
 		sorts = append(sorts, x.so.sortOf(pt))
 		terms = append(terms, v.S)
 	}
